@@ -31,7 +31,10 @@ const ppsB64 = "aO+8sA=="
 const hevcVps = "QAEMAf//AWAAAAMAkAAAAwAAAwBdlZgJ"
 const hevcPps = "RAHBcrRiQA=="
 
-func sdpFor(fam string, ps []byte) string {
+func sdpFor(fam string, ps []byte) string { return sdpForAudio(fam, ps, "90000") }
+
+// sdpForAudio: enc is the rtpmap encoding of the audio line after the codec name ("rate" or "rate/channels").
+func sdpForAudio(fam string, ps []byte, enc string) string {
 	head := "v=0\r\no=- 0 0 IN IP4 127.0.0.1\r\ns=x\r\nc=IN IP4 127.0.0.1\r\nt=0 0\r\n"
 	audio := "m=audio 0 RTP/AVP 97\r\na=rtpmap:97 MPEG4-GENERIC/44100/2\r\na=fmtp:97 profile-level-id=1;mode=AAC-hbr;sizelength=13;indexlength=3;indexdeltalength=3; config=121056E500\r\na=control:streamid=1\r\n"
 	b64 := base64.StdEncoding.EncodeToString(ps)
@@ -42,9 +45,9 @@ func sdpFor(fam string, ps []byte) string {
 		return head + "m=video 0 RTP/AVP 96\r\na=rtpmap:96 H265/90000\r\na=fmtp:96 sprop-vps=" + hevcVps + "; sprop-sps=" + b64 + "; sprop-pps=" + hevcPps + "\r\na=control:streamid=0\r\n" + audio
 	case "vps":
 		return head + "m=video 0 RTP/AVP 96\r\na=rtpmap:96 H265/90000\r\na=fmtp:96 sprop-vps=" + b64 + "; sprop-sps=QgEBAWAAAAMAkAAAAwAAAwBdoAKAgC0WWVmkkyuAQAAA+kAAF3AC; sprop-pps=" + hevcPps + "\r\na=control:streamid=0\r\n" + audio
-	default: // asc: the rtpmap clock rate / channel count are deliberately different from what the configuration says
+	default: // asc
 		return head + "m=video 0 RTP/AVP 96\r\na=rtpmap:96 H264/90000\r\na=fmtp:96 packetization-mode=1; sprop-parameter-sets=Z2QAH6zZQFAFuhAAAAMAEAAAAwPI8YMZYA==," + ppsB64 + "\r\na=control:streamid=0\r\n" +
-			"m=audio 0 RTP/AVP 97\r\na=rtpmap:97 MPEG4-GENERIC/90000\r\na=fmtp:97 profile-level-id=1;mode=AAC-hbr;sizelength=13;indexlength=3;indexdeltalength=3; config=" + hex.EncodeToString(ps) + "\r\na=control:streamid=1\r\n"
+			"m=audio 0 RTP/AVP 97\r\na=rtpmap:97 MPEG4-GENERIC/" + enc + "\r\na=fmtp:97 profile-level-id=1;mode=AAC-hbr;sizelength=13;indexlength=3;indexdeltalength=3; config=" + hex.EncodeToString(ps) + "\r\na=control:streamid=1\r\n"
 	}
 }
 
@@ -85,7 +88,33 @@ func TestParams(t *testing.T) {
 			"maxsub": 0, "nu": 0, "ts": 0, "level": 0, "rate": 0, "ch": 0, "hex": hex.EncodeToString(ps)}
 		var video codec.VideoMeta
 		var audio codec.AudioMeta
-		sdp.ParseMetadata(sdpFor(c.Fam, ps), &video, &audio)
+		rawsdp := sdpFor(c.Fam, ps)
+		if c.Fam == "asc" {
+			// a conformant audio line (RFC 3640): the clock rate is the rate the configuration stands for; the channel
+			// count is given, or left out for mono (RFC 4566: the default is one channel)
+			base, ext := explicitBase, explicitExt
+			if c.Fidx != 15 {
+				base = aacRates[c.Fidx]
+			}
+			if c.Xfidx != 15 {
+				ext = aacRates[c.Xfidx]
+			}
+			rate := base
+			switch c.Mode {
+			case "sbr", "ps", "lc+sync-sbr", "lc+sync-sbr-ps":
+				rate = ext
+			}
+			ch := c.Chan
+			if ch == 7 {
+				ch = 8
+			}
+			enc := fmt.Sprintf("%d/%d", rate, ch)
+			if ch == 1 && n%2 == 0 {
+				enc = fmt.Sprint(rate)
+			}
+			rawsdp = sdpForAudio("asc", ps, enc)
+		}
+		sdp.ParseMetadata(rawsdp, &video, &audio)
 		ev["sdp_w"], ev["sdp_h"], ev["sdp_fps_milli"], ev["sdp_fixed"] = video.Width, video.Height, milli(video.FrameRate), video.FixedFrameRate
 		ev["sdp_rate"], ev["sdp_ch"] = audio.SampleRate, audio.Channels
 		switch c.Fam {
